@@ -123,6 +123,80 @@ var routes = []route{
 		// added meanwhile is not this property's business
 		return "", fmt.Sprintf("$o = [%s];\n  foreach ($o as $v) {\n  %s\n  break;\n  }", c.lit, c.around(o, m))
 	}},
+	// ---- the array travels INSIDE an array literal built at the use site; the holder
+	//      writes below the literal's top level ($p[0]...), the original is $a ----
+	litParam("lit-param", "function c%d_f($p)", "c%d_f([$a])", "$p[0]"),
+	litParam("lit-param-pad", "function c%d_f($p)", "c%d_f([$a, 1])", "$p[0]"),
+	litParam("lit-param-second", "function c%d_f($p)", "c%d_f([1, $a])", "$p[1]"),
+	litParam("lit-param-keyed", "function c%d_f($p)", "c%d_f(['k' => $a])", "$p['k']"),
+	litParam("lit-param-typed", "function c%d_f(array $p)", "c%d_f([$a])", "$p[0]"),
+	litParam("lit-param-nested", "function c%d_f($p)", "c%d_f([[$a]])", "$p[0][0]"),
+	{"lit-closure", kindValue, both(), func(c *caseCtx) (string, string) {
+		if c.side == "copy" {
+			return "", fmt.Sprintf("$a = %s;\n  $fn = function ($p) {\n  %s\n  %s\n  %s\n  };\n  %s\n  $fn([$a]);\n  %s",
+				c.lit, c.emit("MB", "$p[0]"), c.mut("$p[0]"), c.emit("MA", "$p[0]"), c.emit("OB", "$a"), c.emit("OA", "$a"))
+		}
+		return "", fmt.Sprintf("$a = %s;\n  $fn = function ($p, &$o) {\n  %s\n  };\n  $fn([$a], $a);", c.lit, c.around("$p[0]", "$o"))
+	}},
+	litClass("lit-new", "function __construct($p)", "new C%d_K([$a])", "new C%d_K([$a], $a)"),
+	litClass("lit-method", "function m($p)", "(new C%d_K())->m([$a])", "(new C%d_K())->m([$a], $a)"),
+	litClass("lit-static", "static function s($p)", "C%d_K::s([$a])", "C%d_K::s([$a], $a)"),
+	{"lit-return", kindValue, both(), func(c *caseCtx) (string, string) {
+		o, m := c.pick("$h->arr", "$b[0]")
+		return "", fmt.Sprintf("$h = new H();\n  $h->arr = %s;\n  $b = $h->wrap();\n  %s", c.lit, c.around(o, m))
+	}},
+	{"lit-return-fn", kindValue, both(), func(c *caseCtx) (string, string) {
+		// the function returns a literal around a by-reference view of the caller's array
+		o, m := c.pick("$a", "$b[0]")
+		defs := fmt.Sprintf("function c%d_g(&$x) { return [$x]; }\n", c.id)
+		return defs, fmt.Sprintf("$a = %s;\n  $b = c%d_g($a);\n  %s", c.lit, c.id, c.around(o, m))
+	}},
+	{"lit-prop", kindValue, both(), func(c *caseCtx) (string, string) {
+		o, m := c.pick("$a", "$h->arr[0]")
+		return "", fmt.Sprintf("$a = %s;\n  $h = new H();\n  $h->arr = [$a];\n  %s", c.lit, c.around(o, m))
+	}},
+	{"lit-prop-keyed", kindValue, both(), func(c *caseCtx) (string, string) {
+		o, m := c.pick("$a", "$h->arr['k']")
+		return "", fmt.Sprintf("$a = %s;\n  $h = new H();\n  $h->arr = ['k' => $a];\n  %s", c.lit, c.around(o, m))
+	}},
+	{"lit-assign", kindValue, both(), func(c *caseCtx) (string, string) {
+		o, m := c.pick("$a", "$x[0]")
+		return "", fmt.Sprintf("$a = %s;\n  $x = [$a];\n  %s", c.lit, c.around(o, m))
+	}},
+	{"lit-merge", kindValue, both(), func(c *caseCtx) (string, string) {
+		o, m := c.pick("$a", "$x[0]")
+		return "", fmt.Sprintf("$a = %s;\n  $x = array_merge([$a], []);\n  %s", c.lit, c.around(o, m))
+	}},
+	{"lit-elem", kindValue, both(), func(c *caseCtx) (string, string) {
+		o, m := c.pick("$a", "$o[1][0]")
+		return "", fmt.Sprintf("$a = %s;\n  $o = [0, 0];\n  $o[1] = [$a];\n  %s", c.lit, c.around(o, m))
+	}},
+	// ---- promoted constructor parameters (__construct(public array $arr)) ----
+	promoPublic("promo-public", "public array $arr"),
+	promoPublic("promo-untyped", "public $arr"),
+	promoHidden("promo-protected", "protected array $arr"),
+	promoHidden("promo-private", "private array $arr"),
+	promoHidden("promo-private-untyped", "private $arr"),
+	{"promo-getter", kindValue, []string{"orig"}, func(c *caseCtx) (string, string) {
+		defs := fmt.Sprintf("class C%d_K { function __construct(public array $arr) {} function get() { return $this->arr; } }\n", c.id)
+		return defs, fmt.Sprintf("$a = %s;\n  $h = new C%d_K($a);\n  %s", c.lit, c.id, c.around("$h->get()", "$a"))
+	}},
+	{"promo-two", kindValue, both(), func(c *caseCtx) (string, string) {
+		// two objects built from the same array: copy = write through the second, orig = through the first
+		o, m := c.pick("$h1->arr", "$h2->arr")
+		defs := fmt.Sprintf("class C%d_K { function __construct(public array $arr) {} }\n", c.id)
+		return defs, fmt.Sprintf("$a = %s;\n  $h1 = new C%d_K($a);\n  $h2 = new C%d_K($a);\n  %s", c.lit, c.id, c.id, c.around(o, m))
+	}},
+	{"promo-two-source", kindValue, []string{"copy"}, func(c *caseCtx) (string, string) {
+		// two objects from one array, write through one object's property, inspect the source
+		defs := fmt.Sprintf("class C%d_K { function __construct(public $arr) {} }\n", c.id)
+		return defs, fmt.Sprintf("$a = %s;\n  $h1 = new C%d_K($a);\n  $h2 = new C%d_K($a);\n  %s", c.lit, c.id, c.id, c.around("$a", "$h2->arr"))
+	}},
+	{"promo-lit", kindValue, both(), func(c *caseCtx) (string, string) {
+		o, m := c.pick("$a", "$h->arr[0]")
+		defs := fmt.Sprintf("class C%d_K { function __construct(public array $arr) {} }\n", c.id)
+		return defs, fmt.Sprintf("$a = %s;\n  $h = new C%d_K([$a]);\n  %s", c.lit, c.id, c.around(o, m))
+	}},
 	// clone: the clone's own array-valued property changes independently (and the source's)
 	{"clone", kindValue, both(), func(c *caseCtx) (string, string) {
 		o, m := c.pick("$h->arr", "$k->arr")
@@ -152,9 +226,62 @@ var routes = []route{
 	}},
 }
 
+// litParam: a function whose by-value parameter receives a literal that contains $a; the
+// callee writes through `held` (an element of the parameter). orig side: $a itself is
+// written through an extra by-reference parameter while the literal-holding parameter lives.
+func litParam(name, sig, call, held string) route {
+	return route{name, kindValue, both(), func(c *caseCtx) (string, string) {
+		if c.side == "copy" {
+			defs := fmt.Sprintf(sig+" {\n  %s\n  %s\n  %s\n}\n", c.id, c.emit("MB", held), c.mut(held), c.emit("MA", held))
+			return defs, fmt.Sprintf("$a = %s;\n  %s\n  "+call+";\n  %s", c.lit, c.emit("OB", "$a"), c.id, c.emit("OA", "$a"))
+		}
+		sig2 := strings.Replace(sig, "$p)", "$p, &$o)", 1)
+		call2 := call[:len(call)-1] + ", $a)"
+		defs := fmt.Sprintf(sig2+" {\n  %s\n}\n", c.id, c.around(held, "$o"))
+		return defs, fmt.Sprintf("$a = %s;\n  "+call2+";", c.lit, c.id)
+	}}
+}
+
+// litClass: the same through a constructor, an instance method or a static method of a
+// class defined per case.
+func litClass(name, sig, call, callOrig string) route {
+	return route{name, kindValue, both(), func(c *caseCtx) (string, string) {
+		if c.side == "copy" {
+			defs := fmt.Sprintf("class C%d_K {\n  %s {\n  %s\n  %s\n  %s\n  }\n}\n", c.id, sig, c.emit("MB", "$p[0]"), c.mut("$p[0]"), c.emit("MA", "$p[0]"))
+			return defs, fmt.Sprintf("$a = %s;\n  %s\n  $r = "+call+";\n  %s", c.lit, c.emit("OB", "$a"), c.id, c.emit("OA", "$a"))
+		}
+		sig2 := strings.Replace(sig, "$p)", "$p, &$o)", 1)
+		defs := fmt.Sprintf("class C%d_K {\n  %s {\n  %s\n  }\n}\n", c.id, sig2, c.around("$p[0]", "$o"))
+		return defs, fmt.Sprintf("$a = %s;\n  $r = "+callOrig+";", c.lit, c.id)
+	}}
+}
+
+// promoPublic: promoted public property, both names reachable from outside.
+func promoPublic(name, param string) route {
+	return route{name, kindValue, both(), func(c *caseCtx) (string, string) {
+		o, m := c.pick("$a", "$h->arr")
+		defs := fmt.Sprintf("class C%d_K { function __construct(%s) {} }\n", c.id, param)
+		return defs, fmt.Sprintf("$a = %s;\n  $h = new C%d_K($a);\n  %s", c.lit, c.id, c.around(o, m))
+	}}
+}
+
+// promoHidden: promoted protected/private property: read through a getter, written through
+// a method of the class.
+func promoHidden(name, param string) route {
+	return route{name, kindValue, both(), func(c *caseCtx) (string, string) {
+		if c.side == "orig" {
+			defs := fmt.Sprintf("class C%d_K { function __construct(%s) {} function get() { return $this->arr; } }\n", c.id, param)
+			return defs, fmt.Sprintf("$a = %s;\n  $h = new C%d_K($a);\n  %s", c.lit, c.id, c.around("$h->get()", "$a"))
+		}
+		defs := fmt.Sprintf("class C%d_K {\n  function __construct(%s) {}\n  function mut() {\n  %s\n  %s\n  %s\n  }\n}\n", c.id, param,
+			c.emit("MB", "$this->arr"), c.mut("$this->arr"), c.emit("MA", "$this->arr"))
+		return defs, fmt.Sprintf("$a = %s;\n  $h = new C%d_K($a);\n  %s\n  $h->mut();\n  %s", c.lit, c.id, c.emit("OB", "$a"), c.emit("OA", "$a"))
+	}}
+}
+
 const prelude = `<?php
 function snap($x) { return json_encode($x) . " ~ " . str_replace("\n", "", var_export($x, true)); }
-class H { public $arr = []; public $n = 1; function getArr() { return $this->arr; } }
+class H { public $arr = []; public $n = 1; function getArr() { return $this->arr; } function wrap() { return [$this->arr]; } }
 class HC { public $arr = []; function __construct($x) { $this->arr = $x; } }
 `
 
